@@ -54,6 +54,9 @@ BIDS = {}
 KEEP = []
 
 
+BUILDER_RIDS = {}     # id(BatchBuilder filled by the application) -> record ids (builders kept alive in KEEP)
+
+
 def bid_of(batch):
     k = id(batch)
     if k not in BIDS:
@@ -67,6 +70,14 @@ def rid_of(value):
         return int(bytes(value)[1:].split(b"|")[0])
     except Exception:  # noqa: BLE001
         return -1
+
+
+def txn_state_now():
+    """TransactionManager state of the instance whose task is running (observation only)."""
+    try:
+        return CL.instances_[INST.get()].producer._txn_manager.state.name
+    except Exception:  # noqa: BLE001
+        return None
 
 
 def ev(kind, **kw):
@@ -142,7 +153,8 @@ def install_wrappers():
     def append(self, key, value, timestamp_ms, *a, **kw):
         fut = o_append(self, key, value, timestamp_ms, *a, **kw)
         if fut is not None:
-            ev("c_accept", p=self.tp.partition, rid=rid_of(value), bid=bid_of(self), newb=self.record_count == 1)
+            ev("c_accept", p=self.tp.partition, rid=rid_of(value), bid=bid_of(self), newb=self.record_count == 1,
+               txn_state=txn_state_now())
         return fut
     MB.append = append
     o_done, o_fail = MB.done, MB.failure
@@ -161,6 +173,16 @@ def install_wrappers():
         ev("c_ok", p=self.tp.partition, bid=bid_of(self), base_offset=None, empty=self.record_count == 0)
         return o_noack(self)
     MB.done_noack = done_noack
+    o_ab = ACC._append_batch
+
+    def _append_batch(self, builder, tp):
+        b = o_ab(self, builder, tp)
+        rids = BUILDER_RIDS.get(id(builder))
+        if rids:       # a batch filled by the application (create_batch()/send_batch()): its records are accepted here
+            for j, rid in enumerate(rids):
+                ev("c_accept", p=tp.partition, rid=rid, bid=bid_of(b), newb=j == 0, txn_state=txn_state_now())
+        return b
+    ACC._append_batch = _append_batch
     o_pop, o_re = ACC._pop_batch, ACC.reenqueue
 
     def _pop_batch(self, tp):
@@ -224,6 +246,7 @@ def run_scenario(sc):
     out = {"id": sc["id"], "ok": True}
     BIDS.clear()
     KEEP.clear()
+    BUILDER_RIDS.clear()
     instances = [Instance(i, s) for i, s in enumerate(sc["instances"])]
     faults = dict(sc.get("faults") or {})
     moves = dict(sc.get("moves") or {})
@@ -359,6 +382,48 @@ def run_scenario(sc):
                 for it in items:
                     if it.get("sleep"):
                         await asyncio.sleep(it["sleep"])
+                    if it.get("batch"):
+                        # the batch API: create_batch() + send_batch(); optionally the application cancels the
+                        # returned future (e.g. a wait_for() that timed out) `cancel_after` seconds later
+                        builder = p.create_batch()
+                        rids, srecs = [], []
+                        for _ in range(it.get("n", 1)):
+                            state["rid"] += 1
+                            rid = state["rid"]
+                            builder.append(key=b"k%d" % rid, value=b"r%d|" % rid + b"x" * it.get("size", 0),
+                                           timestamp=None)
+                            rids.append(rid)
+                            srec = {"rid": rid, "p": it["p"], "inst": inst.i, "k": rec["k"], "state": "call",
+                                    "batch_api": True}
+                            srecs.append(srec)
+                            inst.sends.append(srec)
+                        BUILDER_RIDS[id(builder)] = rids
+                        KEEP.append(builder)
+                        try:
+                            fut = await p.send_batch(builder, "t", partition=it["p"])
+                        except asyncio.CancelledError:
+                            raise
+                        except BaseException as e:  # noqa: BLE001
+                            for srec in srecs:
+                                srec["state"] = "refused"
+                                srec["exc"] = type(e).__name__
+                                net.ev("app_send_refused", inst=inst.i, k=rec["k"], rid=srec["rid"], p=it["p"],
+                                       exc=type(e).__name__, txn_state=p._txn_manager.state.name)
+                            raise
+                        for srec in srecs:
+                            srec["state"] = "accepted"
+                            srec["fut"] = fut
+                            rec["items"].append([srec["rid"], it["p"]])
+                            net.ev("app_send", inst=inst.i, k=rec["k"], rid=srec["rid"], p=it["p"], batch_api=True)
+                        if it.get("cancel_after") is not None:
+                            def cancel(fut=fut, rids=rids):
+                                if not fut.done():
+                                    net.ev("app_cancel_future", inst=inst.i, k=rec["k"], rids=rids)
+                                    fut.cancel()
+                            loop.call_later(it["cancel_after"], cancel)
+                        else:
+                            futs.append(fut)
+                        continue
                     for _ in range(it.get("n", 1)):
                         state["rid"] += 1
                         rid = state["rid"]
@@ -486,6 +551,7 @@ def run_scenario(sc):
     async def scenario(loop, net):
         global CL
         CL = net
+        net.instances_ = instances
         # every task created while INST is set belongs to that instance
         def factory(loop_, coro, **kw):
             t = asyncio.Task(coro, loop=loop_, **kw)
